@@ -21,6 +21,9 @@ kf("C08", "C08-spirv-matrix-negate", "SPIR-V backend rejects unary minus on a ma
 kf("C08", "C08-pointer-to-matrix-column-argument", "`f(&m[i])` with m a function/private matrix and f taking ptr<_, vecR<f32>> is rejected by the lowerer (\"argument type mismatch (expected ptr<...>, got unknown)\"); WGSL allows the address of a matrix column",
    ["C08|lower|*|*function 'cal' argument #: type mismatch (expected ptr<...>, got unknown)|F4idx/ptrarg-*/*/mat*"])
 
+kf("C08", "C08-hlsl-global-init-unary", "HLSL backend rejects a module-scope variable whose initialiser is a scalar conversion of a negated literal (`var<private> p: i32 = i32(-2147483648);`): \"unsupported global expression type: ir.ExprUnary\"",
+   ["C08|hlsl|*|hlsl: unsupported global expression type: ir.ExprUnary|F1lit/private/i32"])
+
 # ---------------------------------------------------------------- C01 (SPIR-V semantics)
 kf("C01", "C01-fmod", "f32 `%` is emitted as OpFMod (floored, sign of divisor); WGSL prescribes the truncated remainder (sign of dividend), e.g. -7.5 % 2.0 gives 0.5 instead of -1.5",
    ["C01|F1/bin/%/*f32*|*|mismatch"])
@@ -39,6 +42,12 @@ kf("C01", "C01-switch-all-break-unreachable", "a switch whose every clause ends 
 
 kf("C01", "C01-private-subobject-pointer-argument", "`f(&x[i])` with x a private array/matrix and f taking ptr<private, T>: the argument is spilled to a Function-class temporary (or an access chain of the wrong class is built), so OpFunctionCall/OpAccessChain pointer types disagree in storage class (invalid SPIR-V)",
    ["C01|F4idx/ptrarg-*/private/*|*|malformed-output:OpFunctionCall*", "C01|F4idx/ptrarg-*/private/*|*|malformed-output:OpAccessChain*"])
+
+kf("C01", "C01-private-initialiser-dropped", "the initialiser of a module-scope private variable is dropped: `var<private> pq: u32 = 3u;` is emitted as OpVariable Private without an initializer operand (the constant 3 does not occur in the module), so every function that reads pq before writing it sees 0/undefined instead of 3; HLSL, MSL and GLSL keep the initialiser. Seen with one entry point as well as with several",
+   ["C01|F5reach/*Q@*|*|mismatch", "C01|F1lit/private/*|*|mismatch"])
+
+kf("C01", "C01-const-composite-null", "a module-scope `const` of array type copied into a function variable (`var t = TBL; t[i]`) is emitted as OpConstantNull: the SPIR-V backend emits constants that have no inline value as null (`emitConstant` fallback), so every element reads as zero",
+   ["C01|F1lit/constarray/*|*|mismatch"])
 
 # ---------------------------------------------------------------- C03 (HLSL semantics)
 kf("C03", "C03-clz-ctz", "countLeadingZeros/countTrailingZeros are emitted as bare firstbithigh/firstbitlow (clz(1)=0, ctz(0)=0xFFFFFFFF instead of 32)",
@@ -65,6 +74,8 @@ kf("C05", "C05-vector-select-ternary", "select() with a vector condition is emit
    ["C05|F1/call/select/*|*|malformed-output*"])
 kf("C05", "C05-clz-ctz", "countTrailingZeros is emitted as findLSB (ctz(0) = -1 instead of 32) and countLeadingZeros(i32) as 31 - findMSB(x) (wrong for negative x); for u32 both are int expressions assigned to uint (a type error in ES)",
    ["C05|F1/call/countLeadingZeros/*|*|m*", "C05|F1/call/countTrailingZeros/*|*|m*"])
+kf("C05", "C05-global-init-scalar-conversion", "a module-scope variable initialised with a scalar conversion of a negated literal (`var<private> p: i32 = i32(-2147483648);`) is emitted as `int p = int(0)`: the conversion's operand is lost",
+   ["C05|F1lit/private/i32|*|mismatch"])
 kf("C05", "C05-abs-unsigned", "abs(u32) is emitted as abs(uint), which GLSL does not define (type error)",
    ["C05|F1/call/abs/*u32*|*|malformed-output*", "C05|F4c/*call:abs:u32*|*|malformed-output*"])
 
@@ -97,6 +108,8 @@ kf("C02", "C02-binding-array-capability", "an unsized binding_array<T> becomes a
    ["C02|capability|*RuntimeDescriptorArray*|corpus/binding-arrays|*"])
 
 # ---------------------------------------------------------------- C09 (IR contract)
+kf("C09", "C09-global-init-scalar-conversion", "`var<private> p: i32 = i32(-2147483648);` is lowered to a global Compose of the scalar type i32 from one i32 operand (a scalar type is not constructible by Compose)",
+   ["C09|expr-operand|global-expr e# (ir.ExprCompose): compose ##:i# from (i#): type is not constructible|F1lit/private/i32"])
 kf("C09", "C09-math-result-type", "transpose(m) and determinant(m) record the argument's type as their result type (resolveMathType has no case for them)",
    ["C09|expr-type|*ir.ExprMath*|F1/call/transpose/*", "C09|expr-type|*ir.ExprMath*|F1/call/determinant/*", "C09|expr-type|*|builtin_function_sampler"])
 kf("C09", "C09-splat-empty-resolution", "a Splat whose vecN type is not in the type arena is recorded with an empty TypeResolution",
